@@ -110,7 +110,7 @@ func (w *c05World) sync(d *c05Dev, k int) bool {
 }
 
 // VerifC05Distribute: scenario 0: two members with one device each; scenario 1: member A with two devices (the second
-// imported A's account keys) and member B. `steps` free steps -- activate a device, or replicate one entry / everything
+// imported A's account keys) and member B; scenario 2: the same three devices, the second device of A joining late (below). `steps` free steps -- activate a device, or replicate one entry / everything
 // to a device -- are followed by the closure "everybody activates, everything is replicated to everybody, until nothing
 // moves". Then every device holds the chain key of every other device (and can open a message it seals).
 func VerifC05Distribute(scenario, steps int) {
@@ -129,6 +129,32 @@ func VerifC05Distribute(scenario, steps int) {
 	}
 	w.newDev("B1", verifSecretStore("B1"))
 	nd := len(w.devs)
+
+	if scenario == 2 {
+		// the late sibling: A1 and B1 are up and in sync; A2 (second device of member A) then replicates the log in
+		// `steps` free batches (one entry or everything at a time) before it activates
+		sa2 := verifSecretStore("A2")
+		ak, pk, err := sa.ExportAccountKeysForBackup()
+		verif_assume(err == nil)
+		verif_assume(sa2.ImportAccountKeys(ak, pk) == nil)
+		a1, b1 := w.devs[0], w.devs[1]
+		w.activate(a1)
+		w.activate(b1)
+		for round := 0; round < 3; round++ {
+			w.sync(a1, 1000)
+			w.sync(b1, 1000)
+		}
+		a2 := w.newDev("A2", sa2)
+		for s := 0; s < steps; s++ {
+			if verif_anyBool("one-entry") {
+				verif_assume(w.sync(a2, 1))
+			} else {
+				verif_assume(w.sync(a2, 1000))
+			}
+		}
+		steps = 0
+	}
+	nd = len(w.devs)
 
 	for s := 0; s < steps; s++ {
 		who := verif_anyInt("who")
